@@ -18,6 +18,9 @@ type c14Case struct {
 	Set   []string `json:"set"`
 	Lines []string `json:"lines"`
 	Via   string   `json:"via"` // "internal" (headers.Check) or "api" (preflight through the public API, debug off)
+	// Ctx: the other fields of the configuration on the public-API routes (c14Contexts); the header-list rule is the
+	// same in all of them because the list is discrete
+	Ctx int `json:"config_context,omitempty"`
 }
 
 func c14Set(names []string) util.SortedSet {
@@ -65,7 +68,7 @@ func c14Judge(k c14Case) *vlib.Failure {
 			}
 		}
 	case "api", "api-after-debug", "api-after-parts":
-		apiCfg := cors.Config{Origins: []string{"https://a.b"}, RequestHeaders: c14ConfigNames(k.Set)}
+		apiCfg := c14APIConfig(k.Set, k.Ctx)
 		m, err := cors.NewMiddleware(apiCfg)
 		if err != nil {
 			return vlib.Failf("configuration rejected: %v", err)
@@ -97,6 +100,23 @@ func c14Judge(k c14Case) *vlib.Failure {
 		return vlib.Failf("bad case")
 	}
 	return nil
+}
+
+// c14Contexts: settings of the other fields under which a discrete RequestHeaders list must mean the same.
+var c14Contexts = []cors.Config{
+	{},
+	{Credentialed: true, Methods: []string{"*"}, ResponseHeaders: []string{"X-R"}, MaxAgeInSeconds: -1},
+	{Methods: []string{"*", "PUT"}, ResponseHeaders: []string{"*"}, ExtraConfig: cors.ExtraConfig{PrivateNetworkAccess: true, PreflightSuccessStatus: 200}},
+	{Credentialed: true, Methods: []string{"PATCH"}, MaxAgeInSeconds: 86400, ExtraConfig: cors.ExtraConfig{PrivateNetworkAccessInNoCORSModeOnly: true}},
+}
+
+func c14APIConfig(set []string, ctx int) cors.Config {
+	c := c14Contexts[ctx]
+	c.Methods = append([]string(nil), c.Methods...)
+	c.ResponseHeaders = append([]string(nil), c.ResponseHeaders...)
+	c.Origins = []string{"https://a.b"}
+	c.RequestHeaders = c14ConfigNames(set)
+	return c
 }
 
 // c14ConfigNames is how the public-API passes spell the allowed set in the configuration: every name once as
@@ -241,7 +261,7 @@ func checkC14(c *vlib.Ctx) (string, string) {
 		c.ParRange(w1.Count(), 4096, "C14 single lines", func(i int64) {
 			line := w1.At(i)
 			tryInternal(f, ss, []string{line})
-			c.SampleAt(i+1, func() any { return c14Case{f.set, []string{line}, "internal"} })
+			c.SampleAt(i+1, func() any { return c14Case{Set: f.set, Lines: []string{line}, Via: "internal"} })
 		})
 		c.Evaluations.Add(w1.Count())
 		c.States.Add(w1.Count())
@@ -437,7 +457,7 @@ func checkC14(c *vlib.Ctx) (string, string) {
 					c.Evaluations.Add(1)
 					c.Transitions.Add(1)
 					if !headers.Check(ss, lines) {
-						k := c14Case{f.set, lines, "internal"}
+						k := c14Case{Set: f.set, Lines: lines, Via: "internal"}
 						ck.Report(k, vlib.Failf("browser-style list %q of allowed names %q is not approved", lines, f.set))
 					}
 					tryInternal(f, ss, lines)
@@ -449,11 +469,39 @@ func checkC14(c *vlib.Ctx) (string, string) {
 		if f.long {
 			wa = vlib.NewWords(f.alpha, vlib.Pick(c, 3, 4))
 		}
-		apiCfg := cors.Config{Origins: []string{"https://a.b"}, RequestHeaders: c14ConfigNames(f.set)}
+		apiCfg := c14APIConfig(f.set, 0)
 		m, err := cors.NewMiddleware(apiCfg)
 		if err != nil {
-			ck.Report(c14Case{f.set, nil, "api"}, vlib.Failf("configuration rejected: %v", err))
+			ck.Report(c14Case{Set: f.set, Via: "api"}, vlib.Failf("configuration rejected: %v", err))
 			continue
+		}
+		// the same list under the other settings of the remaining fields (shorter words)
+		for ctx := 1; ctx < len(c14Contexts); ctx++ {
+			mc, err := cors.NewMiddleware(c14APIConfig(f.set, ctx))
+			if err != nil {
+				ck.Report(c14Case{Set: f.set, Via: "api", Ctx: ctx}, vlib.Failf("configuration rejected: %v", err))
+				continue
+			}
+			hc := mc.Wrap(http.HandlerFunc(func(http.ResponseWriter, *http.Request) {}))
+			wc := vlib.NewWords(f.alpha, 2)
+			pc := wc.Count()
+			c.ParRange(pc*pc, 1024, "C14 API pairs under other field settings", func(i int64) {
+				lines := []string{wc.At(i / pc), wc.At(i % pc)}
+				rec := vlib.NewRec()
+				r := vlib.Req{Method: "OPTIONS", Hdr: map[string][]string{"Origin": {"https://a.b"}, "Access-Control-Request-Method": {"GET"}, "Access-Control-Request-Headers": lines}}
+				hc.ServeHTTP(rec, r.HTTP())
+				ok := rec.Status >= 200 && rec.Status <= 299 && len(rec.H["Access-Control-Allow-Origin"]) == 1
+				if ok != ref.ACRH(f.set, lines) {
+					k := c14Case{Set: f.set, Lines: lines, Via: "api", Ctx: ctx}
+					if fl := vlib.Guard(func() *vlib.Failure { return c14Judge(k) }); fl != nil {
+						ck.Report(k, fl)
+					} else {
+						vlib.HarnessError("fast path and judge disagree on %+v", k)
+					}
+				}
+			})
+			c.Evaluations.Add(pc * pc)
+			c.Transitions.Add(pc * pc)
 		}
 		scribbleConfig(&apiCfg) // the caller's slices and Config()'s result are the caller's to overwrite
 		scribbleConfig(m.Config())
@@ -464,7 +512,7 @@ func checkC14(c *vlib.Ctx) (string, string) {
 			h.ServeHTTP(rec, r.HTTP())
 			ok := rec.Status >= 200 && rec.Status <= 299 && len(rec.H["Access-Control-Allow-Origin"]) == 1
 			if ok != ref.ACRH(f.set, lines) {
-				k := c14Case{f.set, append([]string(nil), lines...), "api"}
+				k := c14Case{Set: f.set, Lines: append([]string(nil), lines...), Via: "api"}
 				if fl := vlib.Guard(func() *vlib.Failure { return c14Judge(k) }); fl != nil {
 					ck.Report(k, fl)
 				} else {
@@ -488,7 +536,7 @@ func checkC14(c *vlib.Ctx) (string, string) {
 			hh.ServeHTTP(rec, r.HTTP())
 			ok := rec.Status >= 200 && rec.Status <= 299 && len(rec.H["Access-Control-Allow-Origin"]) == 1
 			if ok != ref.ACRH(f.set, lines) {
-				k := c14Case{f.set, append([]string(nil), lines...), "api-after-debug"}
+				k := c14Case{Set: f.set, Lines: append([]string(nil), lines...), Via: "api-after-debug"}
 				if fl := vlib.Guard(func() *vlib.Failure { return c14Judge(k) }); fl != nil {
 					ck.Report(k, fl)
 				} else {
@@ -509,7 +557,7 @@ func checkC14(c *vlib.Ctx) (string, string) {
 			hh.ServeHTTP(rec, r.HTTP())
 			ok := rec.Status >= 200 && rec.Status <= 299 && len(rec.H["Access-Control-Allow-Origin"]) == 1
 			if ok != ref.ACRH(f.set, lines) {
-				k := c14Case{f.set, append([]string(nil), lines...), "api-after-parts"}
+				k := c14Case{Set: f.set, Lines: append([]string(nil), lines...), Via: "api-after-parts"}
 				if fl := vlib.Guard(func() *vlib.Failure { return c14Judge(k) }); fl != nil {
 					ck.Report(k, fl)
 				} else {
